@@ -8,6 +8,8 @@
 -/
 import Hpfeeds.Lemmas.AioClient
 import Hpfeeds.Lemmas.BlkClient
+import Hpfeeds.Lemmas.AioComesBack
+import Hpfeeds.Lemmas.BlkClientComesBack
 namespace Hpfeeds.C13
 open Hpfeeds Extracted
 
@@ -174,6 +176,23 @@ theorem reconnects (cfg : Cfg) (s : State) :
   · obtain ⟨a, _, _, d⟩ := accept_fresh cfg s hs
     exact ⟨a, d⟩
 
+/-- (i) COMPOSED: the session comes back from EVERY reachable state.  After ANY event sequence `es` in which
+    the session was started and close() was not called — whatever happened: refused attempts, a loss before
+    OP_INFO, right after OP_AUTH, mid-frame, repeatedly —, a fixed environment suffix of at most two events
+    (the connection, if any, is lost; the retry timer, if armed, elapses) followed by `accept` brings up a FRESH
+    connection, and a whole OP_INFO on it is answered with the OP_AUTH for ITS nonce and one OP_SUBSCRIBE per
+    channel the application wants at that moment (then messages flow: C12).  asyncio and Twisted (any `cfg`). -/
+theorem comes_back (cfg : Cfg) (es : List Ev) (hs : (run cfg es).1.task ≠ .notStarted)
+    (hc : (run cfg es).1.closeCalled = false) (f : Frame) (n rand : Bytes) (hf : f.WF)
+    (hrd : read f = some (.ok (.info n rand))) :
+    ∃ pre : List Ev, pre.length ≤ 2 ∧ (∀ e ∈ pre, e = .lost ∨ ∃ ms, e = .advance ms) ∧
+      (step cfg (steps cfg (run cfg es).1 (pre ++ [.accept])) (.data (enc f))).2 =
+        Out.wrote ((run cfg es).1.nconn + 1) (authFrame cfg rand) ::
+          (sortBytes (run cfg es).1.subs).map (fun ch => Out.wrote ((run cfg es).1.nconn + 1) (subFrame cfg ch)) ∧
+      ∃ c', (step cfg (steps cfg (run cfg es).1 (pre ++ [.accept])) (.data (enc f))).1.conn = some c' ∧
+        c'.ready = true ∧ c'.gone = false ∧ c'.k = (run cfg es).1.nconn + 1 :=
+  AioClient.comes_back cfg (run cfg es).1 (run_inv cfg es).2.1 hs hc f n rand hf hrd
+
 /-! non-vacuity (kernel-evaluated): loss before INFO, refused retry, new connection authenticates with
     ITS nonce and resubscribes; close before INFO completes at the loss; no attempt afterwards -/
 def exCfg : Cfg := { ident := [109], secret := [115], H := id }
@@ -266,6 +285,18 @@ theorem reconnects (cfg : Cfg) (s : State) :
       simp only [retry, startConnect, newSocket, closeSock]
       split <;> simp
   · simp [step, hp, resume]
+
+/-- (i) COMPOSED: the client comes back.  From ANY state in which run() is reading and has not been stopped: the
+    connection is lost; the next attempt is accepted; a whole OP_INFO arrives; the sends succeed.  Then run() is
+    reading again, on a NEW socket on which it has sent exactly the OP_AUTH for that OP_INFO's nonce followed by
+    one OP_SUBSCRIBE per channel the application wants, in (sorted) set order. -/
+theorem comes_back (cfg : Cfg) (s : State) (hp : s.pc = .runRecv) (hst : s.stopped = false)
+    (f : Frame) (n rand : Bytes) (hf : f.WF) (hop : f.op.toNat = OP_INFO) (hrd : read f = some (.ok (.info n rand))) :
+    let s4 := (step cfg (step cfg (step cfg (step cfg s .eof).1 .connOk).1 (.data (enc f))).1 .sendOk).1
+    let fin := (sendOks cfg s4 (sortBytes s.subs).length).1
+    fin.pc = .runRecv ∧ fin.nsock = s.nsock + 1 ∧
+    fin.sent = authFrame cfg rand :: (sortBytes s.subs).map (subFrame cfg) :=
+  BlkClient.comes_back cfg s hp hst f n rand hf hop hrd
 
 /-! non-vacuity (kernel-evaluated): stop() from another thread while run() reads, then the read completes
     with a timeout / with data whose callback publishes; and stop() followed by the loss of the connection:
